@@ -271,6 +271,13 @@ func CheckC18Module(c C18Module, rec *Rec) error {
 	if !sameFloat(out[0], want) {
 		return fmt.Errorf("%s(%v) = %v, expected %v", moduleNames[c.Type], c.Vec, out[0], want)
 	}
+	// the result is a value of its own: it stays what it was while other modules are activated
+	for _, other := range []int{21, 22, 23} {
+		_, _ = neatmath.NodeActivators.ActivateModuleByType([]float64{want + 1, 0.5, -want - 2}, nil, neatmath.NodeActivationType(other))
+	}
+	if !sameFloat(out[0], want) {
+		return fmt.Errorf("the result of %s(%v) changed from %v to %v while other modules were activated", moduleNames[c.Type], c.Vec, want, out[0])
+	}
 	if _, err := neatmath.NodeActivators.ActivateByType(c.Vec[0], nil, typ); err == nil {
 		return fmt.Errorf("scalar activation with the module type %s returned no error", moduleNames[c.Type])
 	}
